@@ -146,6 +146,8 @@ def handlePacket (d : SessionData) (r : Runtime) (p : Recv) : SessionData × Run
     let r := quotaInc r
     if reasonSuccess rs.rc then (d, r, .ok false) else (d, r, .error (.peerRejected rs.rc))
   | .pubRec id rs =>
+    -- ghost: the serial of the retained PUBLISH that this PUBREC acknowledges
+    let pser := d.outbound.ackedSer id .pubRec
     let (o, found) := d.outbound.ackPacket id .pubRec
     if found then
       let d := { d with outbound := o }
@@ -154,7 +156,7 @@ def handlePacket (d : SessionData) (r : Runtime) (p : Recv) : SessionData × Run
       match checkSize r (encodePubrel id RC_Success) with
       | .error e => (d, r, .error e)
       | .ok () =>
-        match d.outbound.queueRelease id RC_Success with
+        match d.outbound.queueRelease id RC_Success pser with
         | none => (d, r, .error .inflightExhausted)
         | some o' => ({ d with outbound := o' }, r, .ok false)
     else if d.outbound.hasPendingRelease id then
@@ -199,12 +201,7 @@ def handlePacket (d : SessionData) (r : Runtime) (p : Recv) : SessionData × Run
             | some o => ({ d with outbound := o }, r, .ok true)
         else
           let duplicate := d.pendingServerIds.contains id
-          let (ids, rc) :=
-            if !duplicate then
-              (if d.pendingServerIds.length < MAX_INBOUND_QOS2 then (d.pendingServerIds ++ [id], RC_Success)
-               else (d.pendingServerIds, RC_ReceiveMaxExceeded))
-            else (d.pendingServerIds, RC_Success)
-          let d := { d with pendingServerIds := ids }
+          let rc := if duplicate || d.pendingServerIds.length < MAX_INBOUND_QOS2 then RC_Success else RC_ReceiveMaxExceeded
           let a : ControlAction := { typ := MT_PubRec, id := id, rc := rc }
           match checkSize r (encodeControl a) with
           | .error e => (d, r, .error e)
@@ -213,6 +210,8 @@ def handlePacket (d : SessionData) (r : Runtime) (p : Recv) : SessionData × Run
             | none => (d, r, .error .inflightExhausted)
             | some o =>
               let d := { d with outbound := o }
+              -- recorded only once the PUBREC is owed (repair of F24)
+              let d := if !duplicate && reasonSuccess rc then { d with pendingServerIds := d.pendingServerIds ++ [id] } else d
               if duplicate || !reasonSuccess rc then (d, r, .ok false) else (d, r, .ok true)
   | .disconnect _ _ => (d, r, .error .disconnected)
 where
